@@ -6,7 +6,7 @@ NA['C18'] = ('quantifies over thread schedules: sequential function contracts ca
 claim('C01', 'other',
       'Proved kernel + bounded: every ParticleMixin occurrence predicate and the OccursCalculator arithmetic are proved equal to the '
       'XSD occurrence spec for all integers (deductive, unbounded); the content-model interpreter itself (ModelVisitor/XsdGroup.raw_decode) '
-      'is out of reach of the VC generator and is covered only by a bounded run-time contract (is_valid(doc(w)) <=> w in L(m)) over an '
+      'is out of reach of the VC generator and is covered only by a bounded run-time contract (is_valid(doc(w)) <=> w in L(m)) over an exhaustively enumerated, baselined '
       'enumerated scope of models and words, labelled bounded.',
       'Trusted: pyvc encoding, z3/cvc5, spec functions as a reading of XSD Structures 3.8/3.9; the bounded part proves nothing beyond its scope.',
       'DESIGN.md 5/C01')
@@ -21,3 +21,21 @@ claim('C16', 'proof',
       'Trusted: pyvc encoding (sets as arrays String->Bool, A-FRESH), z3/cvc5, get_namespace as an uninterpreted function, XsdWildcard.__copy__ '
       'duplicating the three sets, well-formedness of parsed constraints (checked for _parse by the bounded part), XSI namespace outside the universe.',
       'DESIGN.md 5/C16')
+
+claim('C15', 'other',
+      'Proved leaves + bounded: XsdAnyElement.is_overlap is proved to answer exactly "the two denoted sets intersect" (shared with C16); the decision '
+      'itself (check_model / distinguishable_paths) has no per-function specification other than the property and is covered by a bounded '
+      'run-time contract on the real builder: XMLSchema10/11 raises XMLSchemaModelError <=> an independent Glushkov position-automaton decides '
+      'the model violates UPA, over an exhaustively enumerated scope of 73 528 models per class (quick: a quarter of it). Disagreements of the '
+      'unchanged tree are listed one by one in baseline/C15_instances.json; any other disagreement is a violation.',
+      'Trusted: the independent UPA oracle (bounded/cm.py), untyped leaves (EDC trivially true in scope). Bounded, not proved.',
+      'DESIGN.md 5/C15')
+
+claim('C14', 'other',
+      'Proved kernels + bounded: has_occurs_restriction (True => every admitted count is admitted by the base), OccursCalculator arithmetic, '
+      'XsdWildcard.is_restriction (True => denoted set included, processContents not weakened; same and different target namespaces) are proved '
+      'for all inputs. The group restriction checkers are out of reach and covered by a bounded contract on the real builder: accepted '
+      'restriction => L(derived) subset of L(base) on all words <= 5, for 5 955 bases x <= 40 systematic candidates x 2 classes; facet pairs '
+      'and attribute-use pairs exhaustively over boundary catalogues.',
+      'Trusted: the independent language matcher; words up to length 5. XSD 1.1 widening restrictions of the unchanged tree are listed in baseline/C14_instances.json.',
+      'DESIGN.md 5/C14')
